@@ -152,6 +152,19 @@ func classes() []class {
 			_, err := dsm(e).Create(ctx, &pb.Dataset{Dimension: 4, Space: pb.Space_Cosine, PartitionCount: 1, ReplicationFactor: 1})
 			return err
 		}},
+		// ... and the id of a dataset to be created (chosen by the server): malformed, or well-formed
+		{"create.withid.short", false, func(e *env, ctx context.Context) error {
+			_, err := dsm(e).Create(ctx, &pb.Dataset{Id: []byte{1, 2, 3, 4, 5}, Dimension: 3, Space: pb.Space_Euclidean, PartitionCount: 1, ReplicationFactor: 1})
+			return err
+		}},
+		{"create.withid.long", false, func(e *env, ctx context.Context) error {
+			_, err := dsm(e).Create(ctx, &pb.Dataset{Id: make([]byte, 40), Dimension: 3, Space: pb.Space_Euclidean, PartitionCount: 1, ReplicationFactor: 1})
+			return err
+		}},
+		{"create.withid.existing", false, func(e *env, ctx context.Context) error {
+			_, err := dsm(e).Create(ctx, &pb.Dataset{Id: e.ds, Dimension: 3, Space: pb.Space_Euclidean, PartitionCount: 1, ReplicationFactor: 1})
+			return err
+		}},
 		{"create.zerodim", false, func(e *env, ctx context.Context) error {
 			_, err := dsm(e).Create(ctx, &pb.Dataset{Dimension: 0, PartitionCount: 1, ReplicationFactor: 1})
 			return err
@@ -607,6 +620,28 @@ func classes() []class {
 			_, err := dm(e).PartitionBatchInsert(ctx, &pb.PartitionBatchRequest{DatasetId: e.ds, PartitionId: e.parts[0], Items: batch(2, func(i int, it *pb.BatchItem) {
 				it.Id[1] = 5
 				it.Value = vec(1, 1)
+			})})
+			return err
+		}},
+		// fields a client has no business filling in: the item's level in the index (drawn by the owner) ...
+		{"pbinsert.level.negative", false, func(e *env, ctx context.Context) error {
+			_, err := dm(e).PartitionBatchInsert(ctx, &pb.PartitionBatchRequest{DatasetId: e.ds, PartitionId: e.parts[0], Items: batch(2, func(i int, it *pb.BatchItem) {
+				it.Id[1] = 6
+				it.Level = -3
+			})})
+			return err
+		}},
+		{"pbinsert.level.huge", false, func(e *env, ctx context.Context) error {
+			_, err := dm(e).PartitionBatchInsert(ctx, &pb.PartitionBatchRequest{DatasetId: e.ds, PartitionId: e.parts[0], Items: batch(2, func(i int, it *pb.BatchItem) {
+				it.Id[1] = 7
+				it.Level = 1 << 28
+			})})
+			return err
+		}},
+		{"binsert.level.negative", false, func(e *env, ctx context.Context) error {
+			_, err := dm(e).BatchInsert(ctx, &pb.BatchRequest{DatasetId: e.ds, Items: batch(3, func(i int, it *pb.BatchItem) {
+				it.Id[1] = 8
+				it.Level = -2
 			})})
 			return err
 		}},
